@@ -117,16 +117,26 @@ func checkID(id, kind string, sigil byte) (err error) {
 
 // SplitID splits a matrix ID into a local part and a server name.
 // checkUntrustedEventShape refuses events received from other servers whose
-// "content" is not an object or whose "signatures" are not a map of maps.
-// Redact(), EventID() and Sign() rely on both and panic otherwise.
+// "type" is not a string, whose "content" is not an object or whose
+// "signatures" are not a map of maps. Redact(), EventID() and Sign() rely on
+// these and panic otherwise, or - for a type or a content that is null or
+// missing - put a made-up "type": "" or "content": {} into the redacted form
+// that the event ID and the signatures are taken over.
 func checkUntrustedEventShape(eventJSON []byte) error {
 	var shape struct {
+		Type       *string                           `json:"type"`
 		Content    map[string]spec.RawJSON           `json:"content"`
 		Signatures map[string]map[KeyID]spec.RawJSON `json:"signatures"`
 	}
 	// (exact names: a member called "Content" or "SIGNATURES" is an unknown key)
 	if err := unmarshalExact(eventJSON, &shape); err != nil {
 		return fmt.Errorf("gomatrixserverlib: malformed event content or signatures: %w", err)
+	}
+	if shape.Type == nil {
+		return fmt.Errorf("gomatrixserverlib: malformed event: no type")
+	}
+	if shape.Content == nil {
+		return fmt.Errorf("gomatrixserverlib: malformed event: no content")
 	}
 	return nil
 }
